@@ -157,6 +157,79 @@ theorem C16_read_total (s : Stream) : (readPacketRd s).1 ≠ Res.panic := by
 theorem C16_fragInv : Rd.FragInv readPacketRd := fragInv_readPacketRd
 theorem C16_extStable : Rd.ExtStable readPacketRd := extStable_readPacketRd
 
+/-! ### The login decision of `DialRCON` (T1 bridges + what it means on every response stream) -/
+
+/-- the accepting condition as written in the source (`if r == c.ReqID { err = nil }`) is the model's `ok` verdict -/
+theorem C16_dial_gen_accept (reqID r : BitVec 32) :
+    Gen.RCON_Dial_accept r reqID = decide (loginVerdict reqID r = LoginVerdict.ok) := by
+  unfold Gen.RCON_Dial_accept
+  by_cases h : r = reqID
+  · simp [h, (loginVerdict_ok_iff reqID reqID).mpr rfl]
+  · have : ¬ loginVerdict reqID r = LoginVerdict.ok := fun e => h ((loginVerdict_ok_iff reqID r).mp e)
+    simp [h, this]
+
+/-- the refusal condition as written in the source (`else if r == -1 { "login fail" }`) is the model's -/
+theorem C16_dial_gen_refused (reqID r : BitVec 32) (hne : r ≠ reqID) :
+    Gen.RCON_Dial_refused r = decide (loginVerdict reqID r = LoginVerdict.loginFail) := by
+  unfold Gen.RCON_Dial_refused loginVerdict
+  have : (r == reqID) = false := by simp [hne]
+  rw [this]
+  simp only [Bool.false_eq_true, if_false]
+  by_cases h : r = 4294967295#32
+  · subst h; decide
+  · have h' : (r == 4294967295#32) = false := by simp [h]
+    have h'' : (r == -1#32) = false := h'
+    rw [h', h'']
+    simp
+
+/-- the source still has its third branch: every other id is "req id not match" (a syntactic fact of DialRCON) -/
+theorem C16_dial_gen_mismatchBranch : Gen.RCON_Dial_mismatchBranch = 1 := by decide
+
+/-- the verdict is `ok` exactly for the client's own request id; in particular `−1` ("refused") and every
+foreign id are errors -/
+theorem C16_dial_verdict (reqID r : BitVec 32) :
+    (loginVerdict reqID r = LoginVerdict.ok ↔ r = reqID) ∧
+    (r ≠ reqID → loginVerdict reqID r = LoginVerdict.loginFail ∨ loginVerdict reqID r = LoginVerdict.idMismatch) := by
+  refine ⟨loginVerdict_ok_iff reqID r, fun hne => ?_⟩
+  have hno : loginVerdict reqID r ≠ LoginVerdict.ok := fun e => hne ((loginVerdict_ok_iff reqID r).mp e)
+  cases hv : loginVerdict reqID r with
+  | ok => exact absurd hv hno
+  | loginFail => exact Or.inl rfl
+  | idMismatch => exact Or.inr rfl
+
+/-- `dial_ok_iff`: whatever bytes the peer sends after the dial, the login flow of `DialRCON` (send the login
+packet, read one packet, judge its id) succeeds **iff** the login packet could be written and the peer's bytes
+start with a legal frame — as judged by the reference reader — that carries the client's own request id. The
+type and payload of that frame, and everything after it, play no role. -/
+theorem C16_dial_ok_iff (pw : Bytes) (c : Conn) :
+    (clientLogin pw c).1 = Res.ok () ↔
+      (c.wfail = false ∧ ∃ p rest, Spec.RCON.parse c.inp.flat = some (p, rest) ∧ BitVec.ofNat 32 p.id = c.reqID) := by
+  rw [clientLogin_eq]
+  by_cases hw : c.wfail = true
+  · simp [hw]
+  · have hw' : c.wfail = false := by simpa using hw
+    rw [if_neg hw, recv_ok_iff]
+    simp [hw']
+
+/-- A login response under a foreign id never yields an authenticated client: if the peer's first frame is legal
+and its id is not the client's request id (`R+1`, `0`, `−1`, anything), the flow returns an error — for every
+type, payload and continuation; and the flow never panics on any input. -/
+theorem C16_dial_foreign_id (pw : Bytes) (c : Conn) (id typ : BitVec 32) (p rest : Bytes)
+    (hp : p.length + 10 ≤ 4096) (hc : c.inp.flat = packetBytes id typ p ++ rest) (hid : id ≠ c.reqID) :
+    (clientLogin pw c).1 = Res.err := by
+  rw [clientLogin_eq]
+  by_cases hw : c.wfail = true
+  · simp [hw]
+  · rw [if_neg hw]
+    obtain ⟨s', h, _⟩ := readPacket_frame id typ p rest hp { c with out := c.out ++ packetBytes c.reqID 3#32 pw } hc
+    simp [clientLoginRecv, Op.bind_apply, h, getReqID, verdictOp_eq, hid]
+
+theorem C16_dial_total (pw : Bytes) (c : Conn) : (clientLogin pw c).1 ≠ Res.panic := by
+  rw [clientLogin_eq]
+  by_cases hw : c.wfail = true
+  · simp [hw]
+  · rw [if_neg hw]; exact recv_not_panic _
+
 /-! ### Login -/
 
 /-- For every client request id `r ≥ 0` (what `rand.Int31` returns) and all password byte strings (whose
